@@ -231,6 +231,9 @@ class Ctx:
                  "cm_ranked": "Proofs/GenEquivAR", "ua_shallow": "Proofs/GenEquivAR", "ua_deep": "Proofs/GenEquivAR", "aa_shallow": "Proofs/GenEquivAR", "aa_deep": "Proofs/GenEquivAR",
                  "cp_init": "Proofs/GenEquivCO", "cp_empty": "Proofs/GenEquivCO", "cp_shallow": "Proofs/GenEquivCO", "cp_deep": "Proofs/GenEquivCO",
                  "st_init": "Proofs/GenEquivCO", "st_empty": "Proofs/GenEquivCO", "st_shallow": "Proofs/GenEquivCO", "st_deep": "Proofs/GenEquivCO",
+                 "cp_size": "Proofs/GenEquivRM", "cp_members": "Proofs/GenEquivRM", "st_labels": "Proofs/GenEquivRM", "ua_print": "Proofs/GenEquivRM",
+                 "ng_prange": "Proofs/GenEquivRM", "ng_njit": "Proofs/GenEquivRM", "ng_noop": "Proofs/GenEquivRM",
+                 "vh_emit": "Proofs/GenEquivRM", "vh_add": "Proofs/GenEquivRM", "vh_clear": "Proofs/GenEquivRM",
                  "front_split": "Proofs/GenEquivGU", "admm_front": "Proofs/GenEquivGU", "admm_x": "Proofs/GenEquivGU", "pool": "Proofs/GenEquivGU",
                  "cluster_maintenance": "Proofs/GenEquivCR", "graphical_lasso": "Proofs/GenEquivGL",
                  "matrix_compression": "Proofs/GenEquivMC", "model_state": "Proofs/GenEquivMS",
